@@ -134,6 +134,41 @@ def prog_case(row, k, prefix="p"):
             "tags": row.get("feats", []), "ast": row["body"], "kind": "prog"}
 
 
+CTL_HELPERS = ("def t{N}(k: int) -> bool:\n    println(k)\n    return true\n\n"
+               "def f{N}(k: int) -> bool:\n    println(k)\n    return false\n\n")
+
+
+def _suffix_fns(line, names):
+    return _re.sub(r"\b(" + "|".join(names) + r")\(", r"\1{N}(", line)
+
+
+def ctl_case(row, k, prefix="c"):
+    """GenCtl row -> e2e case: helpers t / f, the generated function g, and `println(g(1))` as the case body"""
+    g = row["g"]
+    lines = [_suffix_fns(l, ["t", "f"]) for l in render.render_fn(g)]
+    lines[0] = lines[0].replace("def g(", "def g{N}(")
+    return {"id": f"{prefix}{k}", "decls": CTL_HELPERS + "\n".join(lines) + "\n", "body": ["println(g{N}(1))"],
+            "aborts": row["status"] == "error", "expect": {"out": row["out"], "status": row["status"], "err": row["err"]},
+            "tags": sorted(row.get("feats", [])), "ast": g["body"], "kind": "ctl"}
+
+
+def self_check_ctl(ctx, cases):
+    """the rendered function g must parse back to the AST the specification evaluated"""
+    reqs = [{"op": "parse", "src": c["decls"].replace("{N}", "")} for c in cases]
+    outs = common.replay_batch(reqs, timeout=1800)
+    rejects = {}
+    for c, q, o in zip(cases, reqs, outs):
+        ob = o.get("obs", {})
+        if not ob.get("ok"):
+            raise ToolError(f"rendered control-flow program does not parse: {ob.get('err') or ob}\n{q['src']}")
+        real = render.norm_real(ob["ast"]["decls"][2]["body"])
+        want = render.to_project_block(c["ast"])
+        if real != want:
+            raise ToolError("renderer self-check failed for a control-flow program:\n" + q["src"] + "\n" + json.dumps(real)[:2500] +
+                            "\n" + json.dumps(want)[:2500])
+    return rejects
+
+
 def self_check_progs(ctx, cases):
     reqs = [{"op": "parse", "src": "def main() -> None:\n" + "".join("    " + l.replace("{N}", "") + "\n" for l in c["body"])} for c in cases]
     outs = common.replay_batch(reqs, timeout=1800)
